@@ -38,6 +38,19 @@ use crate::core::coordinate_transforms::{barycentric_to_face, face_to_barycentri
 use crate::geometry::spherical_triangle::SphericalTriangleShape;
 use crate::utils::vector::{quadruple_product, slerp, vector_difference};
 
+#[cfg(feature = "verif")]
+thread_local! {
+    // Which numerical branches the last `inverse` on this thread took: 1 = returned a triangle corner early,
+    // otherwise 2 + one bit per `safe_acos` call in call order (set = series branch)
+    static VERIF_INVERSE_BRANCHES: std::cell::Cell<u32> = const { std::cell::Cell::new(0) };
+}
+
+/// Which numerical branches the last `inverse` on the calling thread took
+#[cfg(feature = "verif")]
+pub fn verif_last_inverse_branches() -> u32 {
+    VERIF_INVERSE_BRANCHES.with(|b| b.get())
+}
+
 /// Polyhedral projection implementing IVEA (Icosahedral Vertex Equal Area) projection
 pub struct PolyhedralProjection;
 
@@ -120,6 +133,8 @@ impl PolyhedralProjection {
         let b_coords = face_to_barycentric(face_point, face_triangle);
 
         let threshold = 1.0 - 1e-14;
+        #[cfg(feature = "verif")]
+        VERIF_INVERSE_BRANCHES.with(|x| x.set(1));
         if b_coords.u > threshold {
             return a;
         }
@@ -129,6 +144,8 @@ impl PolyhedralProjection {
         if b_coords.w > threshold {
             return c;
         }
+        #[cfg(feature = "verif")]
+        VERIF_INVERSE_BRANCHES.with(|x| x.set(2));
 
         let c1 = cross(b, c);
         let area_abc = triangle_shape.get_area().get();
@@ -165,8 +182,12 @@ impl PolyhedralProjection {
     /// acos(1 - x)
     fn safe_acos(&self, x: f64) -> f64 {
         if x < 1e-3 {
+            #[cfg(feature = "verif")]
+            VERIF_INVERSE_BRANCHES.with(|b| b.set(b.get().wrapping_mul(2).wrapping_add(1)));
             2.0 * x + x * x * x / 3.0
         } else {
+            #[cfg(feature = "verif")]
+            VERIF_INVERSE_BRANCHES.with(|b| b.set(b.get().wrapping_mul(2)));
             (1.0 - 2.0 * x * x).acos()
         }
     }
